@@ -54,3 +54,13 @@ def snapshot_dir(zdir: Path, include_hidden: bool = False) -> dict[str, str]:
             except UnicodeDecodeError:
                 out[rel] = "<binary>"
     return out
+
+
+def silence_logs():
+    """`--log=null` equivalent for in-process API calls."""
+    try:
+        import logrus
+
+        logrus.init_logging(logs=())
+    except Exception:
+        pass
